@@ -247,7 +247,7 @@ check(
           "must equal the single-segment run."),
     quick=[unit("codec", "^TestC08ReaderSegmentation", checks=300, timeout=900),
            unit("codec", "^TestC08MessageSegmentation", checks=150, timeout=900),
-           unit("client", "^TestC08ClientSegmentation", checks=2000, timeout=900)],
+           unit("client", "^TestC08ClientSegmentation", checks=6000, timeout=900)],
     thorough=[unit("codec", "^TestC08ReaderSegmentation", checks=6000, timeout=8000, shards=8),
               unit("codec", "^TestC08MessageSegmentation", checks=1500, timeout=8000, shards=2),
               unit("client", "^TestC08ClientSegmentation", checks=30000, timeout=8000, shards=6)],
@@ -344,7 +344,7 @@ check(
           "the server's definition, alone and inside Array/Map; DateTime adopting the zone; DateTime64 adopting the precision, "
           "alone and in Array; Enum vs Int; Decimal(P,S) vs DecimalN). Blocks come from the reference encoder. The expected "
           "outcome follows from the class. Distinct = hash of (class, schema, data). Non-trivial = any class but identical."),
-    quick=[unit("codec", "^TestC18", checks=6000, timeout=900)],
+    quick=[unit("codec", "^TestC18", checks=20000, timeout=900)],
     thorough=[unit("codec", "^TestC18", checks=60000, timeout=6000, shards=16)],
     manifest=dict(
         text="Class-labelled generated pairs with outcome oracles independent of Conflicts: on success every target holds "
@@ -370,7 +370,7 @@ check(
           "client-name strings (empty, non-UTF-8, long), ReadTimeout and HandshakeTimeout settings, Dial (simulated dialer) or "
           "Connect; each case runs in its own synctest bubble (virtual time). Distinct = hash of the case. Non-trivial = "
           "server != client revision with a feature threshold between them, or any answer other than an immediate hello."),
-    quick=[unit("client", "^TestC13", checks=4000, timeout=900)],
+    quick=[unit("client", "^TestC13", checks=12000, timeout=900)],
     thorough=[unit("client", "^TestC13", checks=60000, timeout=6000, shards=16)],
     manifest=dict(
         text="Generated handshake scenarios against a scripted server on a virtual clock; oracles: client hello parsed by the "
@@ -393,7 +393,7 @@ check(
           "OpenTelemetry span context or none) x negotiated revision spread over the window x 9 compression settings. The "
           "complete client byte log is parsed by the independent stream parser. Distinct = hash of the bytes written. "
           "Non-trivial = the query has input or external data, or >= 2 settings plus parameters."),
-    quick=[unit("client", "^TestC02", checks=5000, timeout=900)],
+    quick=[unit("client", "^TestC02", checks=15000, timeout=900)],
     thorough=[unit("client", "^TestC02", checks=60000, timeout=6000, shards=16)],
     manifest=dict(
         text="Every byte the client writes during Connect+Do is parsed at min(client, server) revision and the configured "
@@ -415,7 +415,7 @@ check(
           "Results.Auto(), single ResultColumn, nil} x presence of each of 7 callbacks x one callback failing at its j-th call. "
           "A model interpreter of the script yields the expected callback trace and outcome. Distinct = hash of (script, client "
           "bytes). Non-trivial = >= 2 non-empty blocks, or exception chain depth >= 2, or telemetry interleaved with data."),
-    quick=[unit("client", "^TestC03", checks=5000, timeout=900)],
+    quick=[unit("client", "^TestC03", checks=15000, timeout=900)],
     thorough=[unit("client", "^TestC03", checks=60000, timeout=6000, shards=16)],
     manifest=dict(
         text="Model-based: the observed callback trace (with a snapshot of the bound columns taken inside OnResult and compared "
@@ -438,7 +438,7 @@ check(
           "return; the parsed client stream must contain exactly those blocks in order, then exactly one empty block (none "
           "after a callback error). Distinct = hash of (history, bytes). Non-trivial = >= 2 rounds with a Reset or in-place "
           "overwrite on a zero-copy column."),
-    quick=[unit("client", "^TestC09", checks=4000, timeout=900)],
+    quick=[unit("client", "^TestC09", checks=12000, timeout=900)],
     thorough=[unit("client", "^TestC09", checks=40000, timeout=6000, shards=16)],
     manifest=dict(
         text="Model-based history testing: what the scripted server receives, decoded by the reference codec, must equal the "
@@ -462,7 +462,7 @@ check(
           "before the query is written), unknown packet code, valid but unhandled code (Hello/Pong/Extremes/TablesStatus/"
           "PartUUIDs/ReadTask), undecodable block then close, 1-3 surplus header blocks}. Distinct = hash of (scenario, fault, "
           "schedule). Non-trivial = the fault took effect and both the sender and the receiver ran after gating started."),
-    quick=[unit("client", "^TestC04", checks=5000, timeout=900)],
+    quick=[unit("client", "^TestC04", checks=15000, timeout=900)],
     thorough=[unit("client", "^TestC04", checks=80000, timeout=8000, shards=16)],
     manifest=dict(
         text="Fault enumeration over scenarios x fault kinds x fault positions x gate-level schedules with the oracle: Do "
@@ -490,8 +490,8 @@ check(
           "and cancel() arrives from another goroutine or inside a callback. Distinct = "
           "hash of (scenario, kind, schedule). Non-trivial = the call failed because of the cancellation while at least one "
           "server packet was still to come."),
-    quick=[unit("client", "^TestC10(Cancellation|HandshakeCancellation)", checks=4000, timeout=900),
-           unit("client", "^TestC10StreamingCancel", checks=600, timeout=900)],
+    quick=[unit("client", "^TestC10(Cancellation|HandshakeCancellation)", checks=10000, timeout=900),
+           unit("client", "^TestC10StreamingCancel", checks=1500, timeout=900)],
     thorough=[unit("client", "^TestC10(Cancellation|HandshakeCancellation)", checks=80000, timeout=8000, shards=12),
               unit("client", "^TestC10StreamingCancel", checks=8000, timeout=8000, shards=4)],
     manifest=dict(
@@ -516,7 +516,7 @@ check(
           "advance the clock, Pool.Do/Pool.Ping, bursts of 2-6 parallel Pool.Do, asynchronous Close; invariants at quiescent "
           "points (synctest.Wait) after every step. Distinct = hash of (configuration, history). Non-trivial = >= 2 "
           "concurrently held handles together with a repeated Release, or an expiry that was checked."),
-    quick=[unit("pool", "^TestC11", checks=2500, timeout=900)],
+    quick=[unit("pool", "^TestC11", checks=7500, timeout=900)],
     thorough=[unit("pool", "^TestC11", checks=40000, timeout=8000, shards=16)],
     manifest=dict(
         text="Model-based stateful testing of the pool: the scripted servers must never see a request while another is in "
